@@ -2,7 +2,7 @@
 //! type, against a vector model with an independently written bucket function.
 
 use crate::core::*;
-use crate::instr::SegVal;
+use crate::instr::{SegVal, SegValN};
 use crate::op::{Flow, Op, Step};
 use crate::rng::Rng;
 use i_tree::seg::exp::{SegExpCollection, SegRange};
@@ -18,14 +18,35 @@ pub trait SColl {
     fn places(&self) -> usize;
 }
 
+#[inline]
+fn to_wide(v: SegVal) -> SegVal {
+    v
+}
+#[inline]
+fn to_narrow(v: SegVal) -> SegValN {
+    SegValN { id: v.id, exp: v.exp.clamp(0, 255) as u8, pad: [v.id; 3] }
+}
+#[inline]
+fn from_narrow(v: SegValN) -> SegVal {
+    SegVal { id: v.id, exp: v.exp as i32 }
+}
+#[inline]
+fn time_wide(t: i32) -> i32 {
+    t
+}
+#[inline]
+fn time_narrow(t: i32) -> u8 {
+    t.clamp(0, 255) as u8
+}
+
 macro_rules! seg_impl {
-    ($r:ty) => {
-        impl SColl for SegExpTree<$r, i32, SegVal> {
+    ($r:ty, $e:ty, $v:ty, $to:ident, $from:ident, $time:ident) => {
+        impl SColl for SegExpTree<$r, $e, $v> {
             fn insert(&mut self, a: i64, b: i64, v: SegVal) {
-                self.insert_by_range(SegRange { min: a as $r, max: b as $r }, v)
+                self.insert_by_range(SegRange { min: a as $r, max: b as $r }, $to(v))
             }
             fn query(&mut self, a: i64, b: i64, t: i32, take: i32) -> Vec<SegVal> {
-                let mut it = self.iter_by_range(SegRange { min: a as $r, max: b as $r }, t);
+                let mut it = self.iter_by_range(SegRange { min: a as $r, max: b as $r }, $time(t)).map($from);
                 let mut out = Vec::new();
                 if take == -4 {
                     // crash-point runs: a panic out of next() is caught per call and the SAME
@@ -74,7 +95,7 @@ macro_rules! seg_impl {
                 SegExpCollection::clear(self)
             }
             fn copies(&self) -> Vec<(usize, u64, SegVal)> {
-                self.verif_copies().into_iter().map(|c| (c.place, c.mask, c.val)).collect()
+                self.verif_copies().into_iter().map(|c| (c.place, c.mask, $from(c.val))).collect()
             }
             fn places(&self) -> usize {
                 self.verif_places()
@@ -82,12 +103,29 @@ macro_rules! seg_impl {
         }
     };
 }
-seg_impl!(i32);
-seg_impl!(i16);
-seg_impl!(u8);
-seg_impl!(i64);
+seg_impl!(i32, i32, SegVal, to_wide, to_wide, time_wide);
+seg_impl!(i16, i32, SegVal, to_wide, to_wide, time_wide);
+seg_impl!(u8, i32, SegVal, to_wide, to_wide, time_wide);
+seg_impl!(i64, i32, SegVal, to_wide, to_wide, time_wide);
+seg_impl!(i32, u8, SegValN, to_narrow, from_narrow, time_narrow);
+seg_impl!(i16, u8, SegValN, to_narrow, from_narrow, time_narrow);
+seg_impl!(u8, u8, SegValN, to_narrow, from_narrow, time_narrow);
+seg_impl!(i64, u8, SegValN, to_narrow, from_narrow, time_narrow);
 
 pub fn build(ty: u8, lo: i64, hi: i64) -> Option<Box<dyn SColl>> {
+    build_ty(ty, 0, lo, hi)
+}
+
+/// `narrow`: 1 = 8-bit expirations and the larger value type
+pub fn build_ty(ty: u8, narrow: u8, lo: i64, hi: i64) -> Option<Box<dyn SColl>> {
+    if narrow == 1 {
+        return Some(match ty {
+            0 => Box::new(SegExpTree::<i32, u8, SegValN>::new(SegRange { min: lo as i32, max: hi as i32 })?),
+            1 => Box::new(SegExpTree::<i16, u8, SegValN>::new(SegRange { min: lo as i16, max: hi as i16 })?),
+            2 => Box::new(SegExpTree::<u8, u8, SegValN>::new(SegRange { min: lo as u8, max: hi as u8 })?),
+            _ => Box::new(SegExpTree::<i64, u8, SegValN>::new(SegRange { min: lo, max: hi })?),
+        });
+    }
     Some(match ty {
         0 => Box::new(SegExpTree::<i32, i32, SegVal>::new(SegRange { min: lo as i32, max: hi as i32 })?),
         1 => Box::new(SegExpTree::<i16, i32, SegVal>::new(SegRange { min: lo as i16, max: hi as i16 })?),
@@ -128,12 +166,14 @@ pub struct SegWorld {
     now: i32,
     next_id: u32,
     scale: u32,
+    /// end of the time line (i32::MAX, or 255 with 8-bit expirations)
+    tmax: i32,
     pub gen: SegGen,
 }
 
 impl SegWorld {
     pub fn new(cfg: Cfg, rng: Option<&mut Rng>) -> Result<SegWorld, String> {
-        let tree = build(cfg.seg_ty, cfg.seg_lo, cfg.seg_hi).ok_or_else(|| format!("SegExpTree::new refused the domain [{}, {}]", cfg.seg_lo, cfg.seg_hi))?;
+        let tree = build_ty(cfg.seg_ty, cfg.key_ty, cfg.seg_lo, cfg.seg_hi).ok_or_else(|| format!("SegExpTree::new refused the domain [{}, {}]", cfg.seg_lo, cfg.seg_hi))?;
         let len = (cfg.seg_hi - cfg.seg_lo + 1) as u64;
         // independent of layout.rs: smallest power-of-two bucket width for which 32 buckets cover the domain
         let mut scale = 0u32;
@@ -154,7 +194,8 @@ impl SegWorld {
             },
             None => SegGen { w: [10, 10, 3, 1, 0, 1], exp_w: [1, 1, 2, 1, 1], coord_w: [1, 1, 2, 1, 1], cancel_pct: 10, horizon: 10, forced_clear_at: None, generated: 0, hot_pct: 0, last_range: None },
         };
-        Ok(SegWorld { now: cfg.t0, tree, twin: None, items: Vec::new(), next_id: 1, scale, gen, cfg })
+        let tmax = if cfg.key_ty == 1 { 255 } else { i32::MAX };
+        Ok(SegWorld { now: if cfg.key_ty == 1 { cfg.t0.clamp(0, tmax) } else { cfg.t0 }, tree, twin: None, items: Vec::new(), next_id: 1, scale, tmax, gen, cfg })
     }
 
     #[inline]
@@ -437,7 +478,7 @@ impl World for SegWorld {
         let (lo, hi) = (self.cfg.seg_lo, self.cfg.seg_hi);
         match op {
             Op::Tick { dt } => *dt >= 0,
-            Op::SIns { a, b, .. } => lo <= *a && a <= b && *b <= hi,
+            Op::SIns { a, b, exp } => lo <= *a && a <= b && *b <= hi && (self.cfg.key_ty != 1 || (0..=255).contains(exp)),
             Op::SQuery { a, b, take } => lo <= *a && a <= b && *b <= hi && *take >= -4,
             Op::SClear { .. } => true,
             _ => false,
@@ -456,8 +497,11 @@ impl World for SegWorld {
         match step.op {
             Op::Tick { dt } => {
                 let old = self.now;
-                self.now = self.now.saturating_add(dt.max(0));
-                ctx.stats.ticks += (self.now - old) as u64;
+                self.now = self.now.saturating_add(dt.max(0)).min(self.tmax);
+                if self.now == self.tmax && old != self.tmax {
+                    ctx.stats.bump("fault.clock_reaches_end_of_time_line");
+                }
+                ctx.stats.ticks += (self.now as i64 - old as i64) as u64;
                 match dt {
                     0 => ctx.stats.bump("fault.clock_stall"),
                     1 => ctx.stats.bump("fault.clock_tick"),
@@ -499,7 +543,7 @@ impl World for SegWorld {
                     ctx.stats.bump("fault.clock_restart_after_clear");
                 }
                 if cfg.has(O_TWIN) {
-                    self.twin = build(cfg.seg_ty, cfg.seg_lo, cfg.seg_hi);
+                    self.twin = build_ty(cfg.seg_ty, cfg.key_ty, cfg.seg_lo, cfg.seg_hi);
                     self.full_observation(ctx, "SClear")?;
                     ctx.stats.oracle_evals += 1;
                     if !self.tree.copies().is_empty() {
@@ -533,8 +577,9 @@ impl World for SegWorld {
                     1 => t.saturating_add(1),
                     2 => t.saturating_add(r.range(0, h as i64) as i32),
                     3 => t.saturating_sub(r.range(1, 3) as i32),
-                    _ => i32::MAX,
+                    _ => self.tmax,
                 };
+                let exp = if self.cfg.key_ty == 1 { exp.clamp(0, 255) } else { exp };
                 Op::SIns { a, b, exp }
             }
             1 => {
@@ -547,8 +592,8 @@ impl World for SegWorld {
             4 => {
                 // land on an expiration
                 let t = self.now;
-                match self.items.iter().map(|it| it.exp).filter(|e| *e > t && *e != i32::MAX).min() {
-                    Some(e) => Op::Tick { dt: e - t + *r.pick(&[0, 0, 1]) },
+                match self.items.iter().map(|it| it.exp).filter(|e| *e > t && *e != self.tmax).min() {
+                    Some(e) => Op::Tick { dt: e.saturating_sub(t).saturating_add(*r.pick(&[0, 0, 1])) },
                     None => Op::Tick { dt: 1 },
                 }
             }
